@@ -210,7 +210,7 @@ fn parse(h: &Value, lineno: usize, vseed: u64, cache: &mut HashMap<Vec<bool>, u6
     }
 }
 
-fn run_once(p: &Parsed, tick_query: u64) -> (Vec<CallRec<LState>>, usize) {
+fn run_once(p: &Parsed, query_ns: u64) -> (Vec<CallRec<LState>>, usize) {
     let space = LatticeSpace::new(p.topo, p.lvs as f64);
     let script = space.script.clone();
     {
@@ -233,7 +233,7 @@ fn run_once(p: &Parsed, tick_query: u64) -> (Vec<CallRec<LState>>, usize) {
             });
         }
     }
-    let cfg = RunCfg { fail_uniform_at: p.cfg_fail_u, fail_goal_at: p.cfg_fail_g, tick_query, ..RunCfg::default() };
+    let cfg = RunCfg { fail_uniform_at: p.cfg_fail_u, fail_goal_at: p.cfg_fail_g, query_ns, ..RunCfg::default() };
     let hook_script = script.clone();
     let recs = run_history_marked(p.kind, &p.params, space, &problems, &p.calls, &cfg, &move |c: &Call, begin: bool| {
         if let Call::Setup(_) = c {
@@ -417,11 +417,11 @@ fn main() {
                     an.out.push(json!({"ev": "stream", "inst": inst, "call": ci + 1, "draws": ds, "res": o, "pan": pan, "tag": "C07"}));
                 }
             }
-            // a third same-seed instance on a slower clock (every validity query costs a tick, so
+            // a third same-seed instance on a slower clock (every validity query costs a seventh of a tick, so
             // deadlines fall in the middle of iterations): timing may change how many iterations
             // complete, never what an iteration does
             if p.params.seed.is_some() {
-                let (recs3, _) = run_once(&p, 1);
+                let (recs3, _) = run_once(&p, TICK_NS / 7);
                 let mut tids = HashMap::new();
                 if let (Some(a), Some(b)) = (vharness::timing::epochs(&recs, &mut tids), vharness::timing::epochs(&recs3, &mut tids)) {
                     an.out.push(json!({"ev": "timing", "a": a, "b": b}));
